@@ -129,12 +129,17 @@ pub fn gen_timed(t: &mut Tape, want_window: bool) -> Scenario {
         let mut body = vec![];
         let mut cur = 0usize;
         for _ in 0..1 + g.t.draw(3) {
-            let op = match g.t.draw(6) {
+            let op = match g.t.draw(if want_window { 8 } else { 6 }) {
                 0 | 1 => UnOp::Shuffle,
                 2 => UnOp::Gb(GbForm::KeyedMap, AggFn::Sum),
                 3 => UnOp::Map(MapFn::Add(1)),
                 4 => UnOp::Reorder,
-                _ => UnOp::Batch(gen_bm(g.t, true)),
+                5 => UnOp::Batch(gen_bm(g.t, true)),
+                6 => UnOp::Win(WinKind::EventTumbling { size }, WinAgg::Chain),
+                _ => {
+                    let slide = 1 + g.t.draw(size as u32) as i64;
+                    UnOp::Win(WinKind::EventSliding { size, slide }, WinAgg::Chain)
+                }
             };
             body.push(Step::Un(cur, op));
             cur += 1;
